@@ -689,7 +689,7 @@ def shape_e2e(ctx, shim, model, ch, r, n, per_script):
     fid = {(sd.iso, v.name): f"c11e2e{sd.iso}v{i}" for sd in scripts for i, v in enumerate(variants[sd.iso])}
     fontlines = {(sd.iso, v.name): f"font {fid[(sd.iso, v.name)]} " + fontbuild.hexfont(e2e_font(sd, v))
                  for sd in scripts for v in variants[sd.iso]}
-    lines, oracle, meta = [], [], []
+    lines, oracle, meta, rlines = [], [], [], []
     for sd, var, d, explicit, pre, w, post, lm in cases:
         pick = lambda word: [r.choice(sd.alpha[x]) for x in word]
         p, t, q_ = pick(pre), pick(w), pick(post)
@@ -702,6 +702,18 @@ def shape_e2e(ctx, shim, model, ch, r, n, per_script):
         lang = xlang(var.lang[0]) if lm == "match" else xlang(OTHER_LANG) if lm == "other" else "-"
         # flags 4 | 16 = PRESERVE_DEFAULT_IGNORABLES | DO_NOT_INSERT_DOTTED_CIRCLE, cluster level 1 = monotone characters
         lines.append(f"shape {fid[(sd.iso, var.name)]} {d} {sd.iso if explicit else '-'} {lang} 20 1 - {hx(p)} {hx(q_)} {text}")
+        # the same request through a RECYCLED buffer: an earlier use with join-causing pre- and post-context (shaped, then
+        # GlyphBuffer::clear(); or only filled, then UnicodeBuffer::clear()), then the request filled with push_str and the
+        # context calls a caller makes for the DECLARED context only (none at all for an empty one)
+        jc = [x for x in "DCLR" if x in sd.alpha] or list(sd.alpha)
+        jl = lambda k: [r.choice(sd.alpha[r.choice(jc[:1] * 3 + jc)]) for _ in range(k)]
+        early = [f"pre {hx(jl(r.range(1, 5)))}", f"push {hx(jl(r.range(1, 3)))}", f"post {hx(jl(r.range(1, 5)))}",
+                 f"script {sd.iso}", f"dir {sd.dir}", f"flags {r.choice([20, 0, 3])}", f"level {r.below(3)}"]
+        if r.chance(2, 3):
+            early.append("shape -")
+        req = ([f"pre {hx(p)}"] if p else []) + [f"push {hx(t)}"] + ([f"post {hx(q_)}"] if q_ else []) + [f"dir {d}"] + \
+              ([f"script {sd.iso}"] if explicit else []) + ([f"lang {lang}"] if lang != "-" else []) + ["flags 20", "level 1"]
+        rlines.append(f"lc #{fid[(sd.iso, var.name)]} ; " + " ; ".join(early + ["clear"] + req + ["shape -", "dump"]))
         oracle.append(f"arabic cls 0,0,0,0,0,0,0,0 {pre or '-'} {w} {post or '-'}")
         meta.append((sd, var, d, explicit, t, not any(c in sd.foreign for c in p + t + q_), lm))
     groups, gidx = [], []
@@ -711,20 +723,35 @@ def shape_e2e(ctx, shim, model, ch, r, n, per_script):
     for key, idx in by.items():
         for j in range(0, len(idx), 4000):
             part = idx[j:j + 4000]
-            groups.append([fontlines[key]] + [lines[i] for i in part])
+            groups.append([fontlines[key]] + [lines[i] for i in part] + [rlines[i] for i in part])
             gidx.append(part)
     outs = [None] * len(lines)
+    routs = [None] * len(lines)
     for g, part, o in zip(groups, gidx, vlib.run_groups(shim, groups)):
         if o[0] != "ok":
             ctx.violation(f"generated positional-forms font rejected: {o[0]}", {"stage": "search", "stream": "shape-e2e",
                           "font_line": g[0][:200]}, found_input=False)
             return
-        for i, x in zip(part, o[1:]):
+        for i, x in zip(part, o[1:1 + len(part)]):
             outs[i] = x
+        for i, x in zip(part, o[1 + len(part):]):
+            # reply of `lc`: the states after every call; the last one carries the `dump` of the glyph buffer
+            routs[i] = x.rsplit(" dump=", 1)[1].replace("_", " ") if x.startswith("ok ") and " dump=" in x else x
     spec = q(model, oracle)
     bad = 0
     dist, per, nbad, modes, shown, pervar, nbadvar, unjudged = {}, {}, {}, {}, {}, {}, {}, {}
-    for ln, orc, (sd, var, d, explicit, t, pure, lm), o, sp in zip(lines, oracle, meta, outs, spec):
+    def decode(o, d, k, nt):
+        """(form per character in logical order, sorted letter indices) read off the glyph ids, or (None, None)"""
+        f = o.split()
+        if f and f[0] == "ok" and int(f[1]) == nt:
+            gids = [int(x.split(":")[0]) for x in f[2:]]
+            if d == "r":
+                gids = gids[::-1]                                            # rtl output is in visual order
+            # block 0 = unsubstituted -> 7 (none)
+            return [((g - 1) // k - 1) % 8 if g >= 1 else -1 for g in gids], sorted(1 + (g - 1) % k for g in gids)
+        return None, None
+    wants = [None] * len(lines)
+    for ci, (ln, orc, (sd, var, d, explicit, t, pure, lm), o, sp) in enumerate(zip(lines, oracle, meta, outs, spec)):
         k = len(sd.letters)
         per[sd.iso] = per.get(sd.iso, 0) + 1
         pervar[var.name] = pervar.get(var.name, 0) + 1
@@ -746,16 +773,10 @@ def shape_e2e(ctx, shim, model, ch, r, n, per_script):
                 for i in range(1, len(want)):
                     if t[i] in FVS:
                         want[i] = want[i - 1]
-        got, got_letters = None, None
-        f = o.split()
-        if f and f[0] == "ok" and int(f[1]) == len(t):
-            gids = [int(x.split(":")[0]) for x in f[2:]]
-            if d == "r":
-                gids = gids[::-1]                                            # rtl output is in visual order
-            got = [((g - 1) // k - 1) % 8 if g >= 1 else -1 for g in gids]   # block 0 = unsubstituted -> 7 (none)
-            got_letters = sorted(1 + (g - 1) % k for g in gids)
-            for a in got:
-                dist[a] = dist.get(a, 0) + 1
+        wants[ci] = want
+        got, got_letters = decode(o, d, k, len(t))
+        for a in got or []:
+            dist[a] = dist.get(a, 0) + 1
         ok = got == want and got_letters == sorted(1 + sd.letters.index(c) for c in t)
         if not ok:
             bad += 1
@@ -776,6 +797,36 @@ def shape_e2e(ctx, shim, model, ch, r, n, per_script):
                               {"stage": "search", "stream": "shape-e2e", "script": sd.iso, "mode": mode, "variant": var.name,
                                "chosen_gsub_script": var.chosen, "font_line": fontlines[(sd.iso, var.name)], "request": ln,
                                "oracle": orc, "expected": want, "observed": o})
+    # the recycled runs: same oracle (spec on the text and its DECLARED context), and the fresh-buffer answer beside it
+    rbad, rjudged, rshown, rper = 0, 0, set(), {}
+    for ci, (rl, orc, (sd, var, d, explicit, t, pure, lm), o, ro) in enumerate(zip(rlines, oracle, meta, outs, routs)):
+        want = wants[ci]
+        if want is None:
+            continue
+        rjudged += 1
+        got, got_letters = decode(ro, d, len(sd.letters), len(t))
+        if got == want and got_letters == sorted(1 + sd.letters.index(c) for c in t):
+            continue
+        rbad += 1
+        rper[sd.iso] = rper.get(sd.iso, 0) + 1
+        fresh_ok = decode(o, d, len(sd.letters), len(t))[0] == want
+        key = (sd.iso, fresh_ok)
+        if len(rshown) < 4 and key not in rshown and (fresh_ok or not any(x[1] for x in rshown)):
+            rshown.add(key)
+            ctx.violation(f"shape() through a RECYCLED buffer (earlier use with joining pre- and post-context, clear(), request "
+                          f"filled with push_str and only its declared context) on the positional-forms font of script {sd.iso}: "
+                          f"forms {got} differ from the spec {want} for {orc}"
+                          + ("; the same request through a fresh buffer gives the spec's forms" if fresh_ok else ""),
+                          {"stage": "search", "stream": "shape-e2e-recycled", "script": sd.iso, "variant": var.name,
+                           "font_line": fontlines[(sd.iso, var.name)], "request": rl, "fresh_request": lines[ci],
+                           "oracle": orc, "expected": want, "observed": ro, "fresh_observed": o})
+    ctx.note_search("shape-e2e-recycled", len(rlines), rjudged, mismatches=rbad, mismatches_per_script=rper,
+                    rule="every request of shape-e2e once more through the public api on ONE buffer: an earlier use of the "
+                         "same script with 1-5 join-causing letters as pre-context and as post-context (2/3 shaped and recycled "
+                         "with GlyphBuffer::clear(), 1/3 only filled and cleared with UnicodeBuffer::clear()), then the request "
+                         "filled with push_str; set_pre_context / set_post_context are called only for a non-empty declared "
+                         "context.  Judged like shape-e2e: form decoded from the glyph id == Lean spec on the text and its "
+                         "declared context")
     ctx.note_search("shape-e2e", len(lines), len(lines) - sum(unjudged.values()), mismatches=bad, mismatches_per_script=nbad,
                     mismatches_per_variant=nbadvar, per_script=per, per_variant=pervar, counted_not_judged=unjudged,
                     modes=modes, scripts=info,
@@ -803,6 +854,12 @@ def replay(ctx, rp):
         o = vlib.run_groups(shim, [[rp["font_line"], rp["request"]]], nproc=1)[0]
         print("impl    :", o[1]); print("observed:", rp["observed"]); print("expected forms:", rp["expected"])
         return 0 if o[1] != rp["observed"] else 1
+    if rp.get("stream") == "shape-e2e-recycled":
+        o = vlib.run_groups(shim, [[rp["font_line"], rp["request"], rp["fresh_request"]]], nproc=1)[0]
+        rec = o[1].rsplit(" dump=", 1)[1].replace("_", " ") if " dump=" in o[1] else o[1]
+        print("recycled request:", rp["request"]); print("recycled buffer :", rec); print("fresh buffer    :", o[2])
+        print("spec forms      :", rp["expected"], "for", rp["oracle"])
+        return 0 if rec != rp["observed"] else 1
     if rp.get("stream") == "masks-oracle":
         a = strip_flags(q(shim, [rp["request"]], nproc=1)[0])
         print("impl    :", a); print("expected:", rp["expected"])
